@@ -1108,7 +1108,15 @@ impl<'a> Visitor<'a, '_, Error> for JSONValidator<'a> {
       }
     }
 
-    self.visit_group_entry(&gr.entry)
+    // The base definition is one more alternative: when it matches, the
+    // errors of the `//=` alternatives tried before it are moot
+    let cur_errors = self.errors.len();
+    self.visit_group_entry(&gr.entry)?;
+    if self.errors.len() == cur_errors {
+      self.errors.truncate(error_count);
+    }
+
+    Ok(())
   }
 
   fn visit_type(&mut self, t: &Type<'a>) -> visitor::Result<Error> {
@@ -3284,7 +3292,13 @@ impl<'a> Visitor<'a, '_, Error> for JSONValidator<'a> {
       }
     }
 
+    // The base definition is one more alternative: when it matches, the
+    // errors of the `//=` alternatives tried before it are moot
+    let cur_errors = self.errors.len();
     walk_type_groupname_entry(self, entry)?;
+    if self.errors.len() == cur_errors {
+      self.errors.truncate(error_count);
+    }
     self.state.type_group_name_entry = None;
 
     Ok(())
